@@ -11,6 +11,8 @@ def run(ctx):
         "tolerance: f32-level (3e-5 x magnitude of the summed terms) for the tensor-based targets on the lattice, 1e-10 relative for the "
         "pure-f64 ndarray/scalar paths; the f64 tensor target is additionally evaluated translated by (12345.7, -9876.5), an offset f32 cannot "
         "hold, with tolerance 1e-6 (its parameters used to be rounded to f32 by Tensor::from_floats: defect D16)",
+        "seeded proposal draws are compared with from + std z, z from rand's SmallRng::seed_from_u64 + rand_distr::StandardNormal (the generator "
+        "the documentation names); unseeded draws are only required to be finite",
         "TLC proves on the lattice that the specification's gradient is the gradient of the specification's log-density "
         "(central differences exact for quadratics, 5-point stencil exact for the quartic Rosenbrock forms)",
     ]
@@ -19,16 +21,28 @@ def run(ctx):
     cases = g.tagged("REPLAY")
     if len(cases) < 300:
         raise vlib.ToolError("MC_Dist produced %d cases" % len(cases))
+    # the proposal's random stream as a state machine (PropStream.tla): every history of draw / set_seed / clone operations
+    gs = ctx.tlc("PropStream", cfg="PropStream_thorough.cfg" if thorough else "PropStream.cfg", workers=4, timeout=2400)
+    ctx.require_ok(gs, "PropStream")
+    streams = gs.tagged("REPLAY")
+    if len(streams) < 1000:
+        raise vlib.ToolError("PropStream produced %d histories" % len(streams))
+    cases = cases + streams
     res = ctx.harness(["c15", "replay", ctx.write_ndjson("dist.ndjson", cases)], timeout=2400)[-1]
     ctx.cov["evaluations"] += res["evaluations"]
     ctx.cov["traces_validated_against_impl"] += len(cases)
     ctx.cov["distinct_nontrivial"] += sum(1 for c in cases if (c["kind"] == "gauss" and c["rn"] != 0) or
-                                          (c["kind"] == "iso" and c["ssd"] > 0) or (c["kind"].startswith("rosen") and c["v"] != 0))
+                                          (c["kind"] == "iso" and c["ssd"] > 0) or (c["kind"].startswith("rosen") and c["v"] != 0) or
+                                          (c["kind"] == "stream" and any(o["op"] == "draw" and o["seed"] != "os" and
+                                                                         any(q["op"] == "draw" for q in c["hist"][:k])
+                                                                         for k, o in enumerate(c["hist"]))))
     for k in ("gauss", "iso", "rosen2", "rosenN"):
         ctx.sample({"case": next(c for c in cases if c["kind"] == k)})
     for m in res["bad"]:
         c = m["case"]
         brief = {k: c[k] for k in c if k in ("kind", "cov", "m", "x", "e", "D", "from", "to", "A", "B")}
+        if c["kind"] == "stream":
+            brief["ops"] = ["%s%d%s" % (o["op"][0], o["o"], o["seed"] if o["op"] == "seed" else "") for o in c["hist"]]
         ctx.violation("dist %s %s" % (m["what"], json.dumps(brief, sort_keys=True)),
                       "%s = %s, definition gives %s (tolerance %s)" % (m["what"], m["observed"], m.get("expected"), m.get("tol")),
                       {"direction": "replay", "spec": "MC_Dist", "mismatch": m})
@@ -37,7 +51,8 @@ def run(ctx):
     rs = ctx.harness(["c15", "replay", ctx.write_ndjson("dist_self.ndjson", [c])])[-1]
     ctx.selftest("replay: expected Rosenbrock value off by one", len(rs["bad"]) > 0)
     ctx.cov["rule"] = ("every lattice case of MC_Dist (covariances incl. condition numbers ~1e4, means, points, dyadic scalings 2^-10..2^13, "
-                       "isotropic dims 1..32 with std 2^-9..2^9, Rosenbrock 2-D/N-D) x every public evaluation path (ndarray f32/f64, "
+                       "isotropic dims 1..32 with std 2^-9..2^9, Rosenbrock 2-D/N-D; every history of <= 5 (thorough 7) draw / set_seed / clone operations on "
+                       "the proposal, PropStream.tla) x every public evaluation path (ndarray f32/f64, "
                        "tensor batched/single/gradient on both backends, batch sizes 1..64); non-trivial = cases with a non-zero exponent term")
     ctx.cov["exhaustive"] = True
 
